@@ -319,6 +319,10 @@ OUTSIDE = ["valid_range_test: float32 data with a span that is not exact in bina
            "compute) are environment-model contracts; every path witness is replayed through the real carriers (incl. real dask, "
            "float32, pandas) which is where a wrong contract would surface",
            "float32: values restricted to |x|<=1024 on the 2^-10 grid (exact in binary32)", "int64 / uint16 / int8: integer values (0..2000 and -100..100 for the narrow ones), nothing missing",
+           "layout carriers (read-only, big-endian, strided view, object array with None, column-major 2x2, int16 masked, int32/uint32 "
+           "epoch seconds before 2038): byte order, strides, element type and memory order are not observable in the model - these "
+           "carriers are decided only through the real-stack replay of every path witness and the real-code probes, not by the solver; "
+           "valid_range_test on object / masked-integer data (no numeric dtype to compare in) is outside",
            "time zones other than UTC", "series longer than 3"]
 ASSUMPTIONS = ["carrier models expose exactly the attributes ioos_qc inspects (dtype, dtype.tz, .dt, .to_numpy, .values, .shape, "
                "array protocol, mask)", "numpy/pandas environment model validated per path against the real stack"]
